@@ -40,6 +40,9 @@ ASSUMPTIONS = [
     "every script / category fontTools.unicodedata returns for any of the 0x110000 code points is in "
     "orderedScripts / orderedCategories (enumerated exhaustively by `extract` on every run)",
     "the container-partner pass is the one repaired by repo_fixes/C20-container-partners.diff",
+    "descriptor lists are shorter than CPython's recursion limit (every descriptor nests the block list one level "
+    "deeper; about 990 descriptors raise RecursionError); generated lists have 0-3",
+    "names are str objects; the lists are Python lists",
 ]
 TRUSTED = [
     "look-up parameters of the model are tabulated per case from the real UnicodeData (harness/props/c20.py:tabulate)",
